@@ -244,7 +244,7 @@ Definition spec_assumptions_no_output (outputs : list pred) (fs : list aformula_
                     else true) fs.
 (* ensure_specification_roles_are_supported *)
 Definition spec_roles_supported (fs : list aformula_annot) : bool :=
-  forallb (fun a => match an_role a with RAssumption | RSpec | RDefinition => true | _ => false end) fs.
+  forallb (fun a => match an_role a with RAssumption | RSpec => true | _ => false end) fs.
 
 Section Components.
 Variable is_tight : program -> bool.
